@@ -152,6 +152,7 @@ Record garc := mkGA {
 Inductive segc :=
 | SB (pin pout : list qpt)               (* M / L / Z / Q / C: the control points that the record stores *)
 | SA (a : garc)
+| SD (rx ry cs sn : Q)                   (* an arc whose output radii are not finite; the input arc's exact radii / rotation *)
 | SX.                                    (* the command kinds of input and output differ *)
 
 Record kpath := mkP { p_exact : bool; p_m : mat; p_segs : list segc; p_panic : bool }.
@@ -191,6 +192,20 @@ Definition ceq_close (tol : Q) (k k' : conic) : bool :=
 Definition decisive (u v w : qpt) : bool :=
   Qle_bool (tol20 * (n1 u * n1 w)) (Qabs (qcross u w)) && Qle_bool (tol20 * (n1 w * n1 v)) (Qabs (qcross w v)).
 
+(** w (relative to the centre) is within first-order distance tolabs of the ellipse (rx, ry, cs, sn):
+    with (xi, eta) = w in the ellipse's frame and f = xi^2/rx^2 + eta^2/ry^2 - 1,
+    |resid| = |f| rx^2 ry^2 <= tolabs (|xi| ry^2 + |eta| rx^2) <= sqrt 2 * tolabs * rx^2 ry^2 |grad f| / 2,
+    i.e. |f| / |grad f| <= tolabs / sqrt 2.  Division-free, so every denominator stays a power of two. *)
+Definition pred (p : qpt) : qpt := (Qred (fst p), Qred (snd p)).   (* same point, reduced fractions (speed only) *)
+Definition near_ellipse (tolabs rx ry cs sn : Q) (w : qpt) : bool :=
+  let f := pred (frame cs sn w) in
+  let r := fst f * fst f * (ry * ry) + snd f * snd f * (rx * rx) - rx * rx * (ry * ry) in   (* = ell_resid rx ry cs sn w *)
+  Qle_bool (Qabs r) (tolabs * (Qabs (fst f) * (ry * ry) + Qabs (snd f) * (rx * rx))).
+
+(** m is well conditioned: |m|_F^2 <= 256 |det| (only then are the coefficients of the output form compared) *)
+Definition wellcond (m : mat) : bool :=
+  Qle_bool (ma m * ma m + mb m * mb m + md m * md m + me m * me m) (256 * Qabs (mdet m)).
+
 Definition judge_arc (m : mat) (a : garc) : Z * Z :=
   match minv m with
   | None => (2048%Z, 0%Z)
@@ -200,7 +215,8 @@ Definition judge_arc (m : mat) (a : garc) : Z * Z :=
     let u0 := qsub (g_s a) c in let v0 := qsub (g_e a) c in
     (* generator sanity: exact membership of the end points, exact rotation, flags consistent *)
     let gen_ok := Qeq_bool (g_cs a * g_cs a + g_sn a * g_sn a) 1 &&
-                  Qeq_bool (qf k0 u0) 1 && Qeq_bool (qf k0 v0) 1 &&
+                  Qeq_bool (ell_resid (g_rx a) (g_ry a) (g_cs a) (g_sn a) u0) 0 &&
+                  Qeq_bool (ell_resid (g_rx a) (g_ry a) (g_cs a) (g_sn a) v0) 0 &&
                   (Qeq_bool (qcross u0 v0) 0 || Bool.eqb (arc_large (g_sweep a) u0 v0) (g_large a)) in
     let scale := 1 + n1 c + g_rx a in
     let tie_in := close tol30 scale (fst (g_cgo a)) (fst c) && close tol30 scale (snd (g_cgo a)) (snd c) in
@@ -208,27 +224,28 @@ Definition judge_arc (m : mat) (a : garc) : Z * Z :=
     let mc_ := mdot m c in
     let mgc := mdot (mabs m) (pabs c) in
     let oscale := 1 + n1 mgc + o_rx a in
-    (* end points: the output start is the previous record's end (checked there); the end maps *)
+    let tolabs := tol20 * oscale in
     let p_end := pt_ok false m (g_e a) (o_e a) && pt_ok false m (g_s a) (o_s a) in
     let neg := negb (Qle_bool 0 (mdet m)) in
     let p_flags := Bool.eqb (o_sweep a) (xorb (g_sweep a) neg) &&
                    (Qeq_bool (qcross u0 v0) 0 || Bool.eqb (o_large a) (g_large a)) in
-    let k1 := ellipse_conic (o_rx a) (o_ry a) (o_cs a) (o_sn a) in
-    let kt := conic_pull i k0 in
-    let p_conic := ceq_close tol20 k1 kt &&
-                   close tol20 oscale (fst (o_c a)) (fst mc_) && close tol20 oscale (snd (o_c a)) (snd mc_) in
+    let p_conic :=
+      if wellcond m then
+        ceq_close tol20 (ellipse_conic (o_rx a) (o_ry a) (o_cs a) (o_sn a)) (conic_pull i k0) &&
+        close tol20 oscale (fst (o_c a)) (fst mc_) && close tol20 oscale (snd (o_c a)) (snd mc_)
+      else true in
     (* samples *)
     let oc := o_c a in
     let u1 := qsub (o_s a) oc in let v1 := qsub (o_e a) oc in
     let one (uv : Q * Q) : bool * bool :=
-      let X := ellipse_pos (g_rx a) (g_ry a) (g_cs a) (g_sn a) c (fst uv) (snd uv) in
+      let X := pred (ellipse_pos (g_rx a) (g_ry a) (g_cs a) (g_sn a) c (fst uv) (snd uv)) in
       let w0 := qsub X c in
       if negb (decisive u0 v0 w0) then (false, true)
       else
         let inside := in_spanb (g_sweep a) u0 v0 w0 in
         let Y := mdot m X in
-        let w1 := qsub Y oc in
-        let onk := close tol20 1 (qf k1 w1) 1 in
+        let w1 := pred (qsub Y oc) in
+        let onk := near_ellipse tolabs (o_rx a) (o_ry a) (o_cs a) (o_sn a) w1 in
         let ins := in_spanb (o_sweep a) u1 v1 w1 in
         (true, onk && Bool.eqb ins inside) in
     let rs := map one (g_samples a) in
@@ -242,6 +259,17 @@ Definition judge_seg (exact : bool) (m : mat) (s : segc) : Z * Z :=
   match s with
   | SB pin pout => (bit (negb (pts_ok exact m pin pout)) 4, Z.of_nat (length pin))
   | SA a => judge_arc m a
+  | SD rx ry cs sn =>
+      (* the exact transported form K: if det K / (trace K)^2 <= 2^-33 the eigenvalue ratio of the image ellipse is
+         below the library's Epsilon (1e-10) — classified separately (flag 8192), otherwise a plain failure *)
+      match minv m with
+      | Some i =>
+          let kt := conic_pull i (ellipse_conic rx ry cs sn) in
+          let tr := qA kt + qC kt in
+          let dt := qA kt * qC kt - qB kt * qB kt in
+          if Qle_bool (dt * 8589934592) (tr * tr) then (8192%Z, 0%Z) else (4096%Z, 0%Z)
+      | None => (2048%Z, 0%Z)
+      end
   | SX => (4096%Z, 0%Z)
   end.
 
